@@ -86,7 +86,13 @@ func (e *Engine) assumeRely(st *State) {
 
 // sharedAccess: the obligation for a plain load/store of object memory in atomic mode.
 func (e *Engine) sharedAccess(st *State, fr *Frame, loc *Loc, write bool, pos string) {
-	if !e.atomicMode() || loc.Kind != LocObj || st.dead {
+	if !e.atomicMode() || st.dead {
+		return
+	}
+	if e.guardedAccess(st, loc, write, pos) {
+		return
+	}
+	if loc.Kind != LocObj {
 		return
 	}
 	field := e.fieldName(loc)
@@ -188,12 +194,7 @@ func init() {
 			e.primitiveAction(st, fr, kind, args[0], args[1:], rt, k, nil)
 		}
 	}
-	for _, m := range []string{"Lock", "Unlock", "TryLock"} {
-		prim("(*sync.Mutex)."+m, m)
-	}
-	for _, m := range []string{"Lock", "Unlock", "TryLock", "RLock", "RUnlock", "TryRLock"} {
-		prim("(*sync.RWMutex)."+m, m)
-	}
+	// sync.Mutex / sync.RWMutex: see locks.go
 	prim("(*sync/atomic.Value).Load", "AVLoad")
 	prim("(*sync/atomic.Value).Store", "AVStore")
 	prim("(*sync/atomic.Value).Swap", "AVSwap")
